@@ -689,8 +689,28 @@ def _e2e_task(args):
     return n_eval, keys, samples, failures, per_class, skipped
 
 
+def _many_level_specs(seed, thorough):
+    """Frames whose first categorical has 6..8 levels (the level COUNT as a dimension: names pairwise distinct, one
+    column per level / per reduced level, in level order)."""
+    rng = random.Random(seed * 9176 + 41)
+    grid = [(6, 7, "category"), (6, 6, "object")] + ([(6, 8, "category"), (5, 6, "str"), (6, 8, "object")] if thorough else [])
+    out = []
+    for n, nlev, flavor in grid:
+        labels = [f"v{k}" for k in range(1, nlev + 1)]
+        if flavor == "category":
+            levels = labels[:]
+            rng.shuffle(levels)  # category order is not the sorted order; with n < nlev some levels have no rows
+        else:
+            levels = labels
+        vals = [labels[i % nlev] for i in range(n)]
+        rng.shuffle(vals)
+        out.append({"n": n, "cols": [mf.cat_col("A", flavor, levels, vals),
+                                     mf.num_col("a", "float", mf.generic_floats(rng, n, positive=False))]})
+    return out
+
+
 def _run_e2e(ctx):
-    specs = mf.small_frame_specs(ctx.seed, ctx.thorough)
+    specs = mf.small_frame_specs(ctx.seed, ctx.thorough) + _many_level_specs(ctx.seed, ctx.thorough)
     nparts = 4 if ctx.thorough else 8
     tasks = [(spec, ctx.seed, fi, ctx.thorough, part, nparts) for fi, spec in enumerate(specs) for part in range(nparts)]
     with ctx.bounded(
@@ -700,7 +720,7 @@ def _run_e2e(ctx):
              "(each formula has a term with >= 1 data factor)",
         exhaustive=False,
         bound="frames: rows 1..6 with row labels default / shuffled 0..n-1 / subset of a larger range / strings (rotating; "
-              "thorough single-term cases: all outputs under one kind + pandas output under a second), 0-3 categoricals (1..4 levels; category/object/str dtype; also written "
+              "thorough single-term cases: all outputs under one kind + pandas output under a second), 0-3 categoricals (1..4 levels, + frames with one 6..8-level categorical; category/object/str dtype; also written "
               "C(A), C(A, levels=[reversed]), C(A, contr.SAS), C(A, contr.sum)), 0-3 numerics (+ I(a * 2), "
               "np.log(b), I(a + b), I(b ** 2)); formulas: every single term of <= 3 ordered factors from a pool of <= 5 (quick) / 6 (thorough), "
               "x {no scale, 2.5:} x intercept on/off (exhaustive), + seeded 2-4 term formulas (100 quick / 600 thorough per frame) with scales "
